@@ -1,6 +1,7 @@
 import AFV.Lemmas.Verdict
 import AFV.Lemmas.CeilStrip
 import Mathlib.Tactic.Ring
+import Mathlib.Tactic.NormNum
 /-!
 Concrete formulas, boxes and TRUTHFUL oracles on which the model of the comparator returns a verdict
 that is false at a point of the box (each is replayed on the real code by the harness), the
@@ -72,11 +73,15 @@ structure PlainOracle (o : Oracle) : Prop where
   range_i_plain : ∀ f s lo hi, Plain f → o.range f s = some (.interval lo hi) → Plain lo ∧ Plain hi
   range_f_plain : ∀ f s l, Plain f → o.range f s = some (.finite l) → ∀ g ∈ l, Plain g
 
-theorem admissible_plain {o : Oracle} (box : Box) (hP : PlainOracle o) :
-    Admissible o box (fun _ f => Plain f) where
+theorem admissible_plain (cfg : Cfg) {o : Oracle} (box : Box) (hP : PlainOracle o) :
+    Admissible cfg o box (fun _ f => Plain f) where
   doit_ok lt f g hf h := hP.doit_plain f g hf h
   strip_ok lt f hf ρ _ := by rw [plain_strip hf]; exact below_refl _ _
-  heav_ok lt f f1 a b hf hn hh _ _ := by
+  heav_closed lt f f1 hf hn hh := by
+    rw [plain_strip hf] at hn
+    have := plain_hasHeav (hP.norm_plain f f1 hf hn)
+    rw [this] at hh; cases hh
+  heav_ok lt f f1 hf hn hh := by
     rw [plain_strip hf] at hn
     have := plain_hasHeav (hP.norm_plain f f1 hf hn)
     rw [this] at hh; cases hh
@@ -126,6 +131,7 @@ def o0 : Oracle where
     | .add [.mul [.num 1 4, .sym 0], .num (-1) 2] => some (.interval (.num (-1) 4) (.num 0 1))
     | _ => some .fail
   norm f := some f
+  corner _ _ _ := some (some false)
   doit f := some f
   expand f := some f
   diff _ _ := none
@@ -193,6 +199,7 @@ def oH : Oracle where
     | _ => some none
   range _ _ := some .fail
   norm f := some f
+  corner _ _ _ := some (some false)
   doit f := some f
   expand f := some f
   diff _ _ := none
@@ -238,6 +245,7 @@ def oT : Oracle where
   rel _ _ := some none
   range _ _ := some .fail
   norm f := some f
+  corner _ _ _ := some (some false)
   doit f := some f
   expand f := some f
   diff _ _ := none
@@ -271,6 +279,7 @@ def oP : Oracle where
     | _, _ => some none
   range _ _ := some .fail
   norm f := some f
+  corner _ _ _ := some (some false)
   doit f := some f
   expand f := some f
   diff _ _ := none
@@ -313,5 +322,54 @@ theorem oP_plain : PlainOracle oP where
     rw [← h]; exact hf
   range_i_plain f s lo hi _ h := by simp [oP] at h
   range_f_plain f s l _ h := by simp [oP] at h
+
+/-! ## (2') the same formula under the repaired per-atom partition -/
+
+/-- sympy on the repaired run: the four parts `±1 ± 1`, `0 − 0` … are constants and compare exactly. -/
+def oH2 : Oracle where
+  rel f ge := match f with
+    | .add [.num 1 1, .mul [.num (-1) 1, .num 1 1]] => some (some true)            -- 1 − 1 = 0
+    | .add [.num 0 1, .mul [.num (-1) 1, .num 1 1]] => some (some (!ge))           -- 0 − 1 = −1
+    | .add [.num 1 1, .mul [.num (-1) 1, .num 0 1]] => some (some ge)              -- 1 − 0 = 1
+    | .add [.num 0 1, .mul [.num (-1) 1, .num 0 1]] => some (some true)            -- 0 − 0 = 0
+    | _ => some none
+  range _ _ := some .fail
+  norm f := some f
+  corner _ _ _ := some (some false)
+  doit f := some f
+  expand f := some f
+  diff _ _ := none
+
+theorem oH2_sound : OracleSound oH2 boxH where
+  rel_sound f ge h := by
+    simp only [oH2] at h
+    split at h
+    · intro ρ _
+      have := aH_val ρ
+      simp only [aH] at this
+      cases ge <;> simp only [Sgn] <;> rw [this]
+    · intro ρ _
+      simp only [Option.some.injEq, Bool.not_eq_true'] at h
+      subst h
+      simp only [Sgn, eval, sumL, prodL]
+      rw [mkRat_0_1, mkRat_m1_1, mkRat_1_1]; norm_num
+    · intro ρ _
+      simp only [Option.some.injEq] at h
+      subst h
+      simp only [Sgn, eval, sumL, prodL]
+      rw [mkRat_0_1, mkRat_m1_1, mkRat_1_1]; norm_num
+    · intro ρ _
+      have := bH_val ρ
+      simp only [bH] at this
+      cases ge <;> simp only [Sgn] <;> rw [this]
+    · simp at h
+  range_interval f s lo hi h := by simp [oH2] at h
+  range_finite f s l h := by simp [oH2] at h
+  norm_eq f g h ρ _ := by
+    simp only [oH2, Option.some.injEq] at h
+    rw [h]
+  doit_eq f g h ρ _ := by
+    simp only [oH2, Option.some.injEq] at h
+    rw [h]
 
 end AFV.Verdict
